@@ -300,7 +300,8 @@ func (down *rtpDownTrack) Write(buf []byte) (int, error) {
 	buf2 := ibuf2.([]byte)
 
 	n := copy(buf2, buf)
-	err = codecs.RewritePacket(codec, buf2[:n], setMarker, newseqno, piddelta)
+	// piddelta counts the withheld frames: subtract it from the picture id
+	err = codecs.RewritePacket(codec, buf2[:n], setMarker, newseqno, -piddelta)
 	if err != nil {
 		return 0, err
 	}
